@@ -2,8 +2,9 @@
 (***************************************************************************)
 (* A naunet project directory over its life: `naunet init`, hand edits of  *)
 (* naunet_config.toml, `naunet render` with and without --force, `naunet   *)
-(* render --patch`, a second `naunet init`.  Extends C20 ("what is         *)
-(* configured is what is rendered") from one init+render to histories.     *)
+(* render --patch`, a second `naunet init`, and `Network.export` into the   *)
+(* same directory (with and without overwrite=True).  Extends C20 ("what   *)
+(* is configured is what is rendered") from one init+render to histories.  *)
 (*                                                                         *)
 (*   cfg     the network description currently in naunet_config.toml       *)
 (*           (an id from Descs; 0 = no project yet)                        *)
@@ -18,8 +19,11 @@
 (***************************************************************************)
 EXTENDS Naturals
 
-CONSTANTS Descs,      \* set of description ids (positive naturals)
-          PVariant    \* "asis" | seeded design variants
+CONSTANTS Descs,       \* set of description ids (positive naturals)
+          ExportDescs, \* the descriptions an EXPORTED project can hold (its network file is the native reactions.naunet)
+          PVariant     \* "asis" | seeded design variants
+InitDescs == Descs \ ExportDescs
+SameKind(a, b) == (a \in ExportDescs) = (b \in ExportDescs)
 
 VARIABLES cfg, tree, summ, patch
 pvars == <<cfg, tree, summ, patch>>
@@ -28,14 +32,14 @@ PInit == cfg = 0 /\ tree = 0 /\ summ = 0 /\ patch = 0
 
 (* naunet init <options of d>   (no --render) *)
 InitCmd(d) ==
-  /\ d \in Descs
+  /\ d \in InitDescs
   /\ IF cfg = 0 \/ PVariant = "init_overwrites"
        THEN cfg' = d /\ summ' = 0
        ELSE UNCHANGED <<cfg, summ>>          \* "Project configure file exists. Overwrite?" -> no -> exit
   /\ UNCHANGED <<tree, patch>>
 
 (* the user edits the chemistry / solver tables of the configuration file; the [summary] table, if any, stays as it is *)
-Edit(d) == cfg # 0 /\ d \in Descs /\ cfg' = d /\ UNCHANGED <<tree, summ, patch>>
+Edit(d) == cfg # 0 /\ d \in Descs /\ SameKind(d, cfg) /\ cfg' = d /\ UNCHANGED <<tree, summ, patch>>
 
 (* naunet render [--force]: refuses to touch non-empty directories unless forced *)
 Render(force) ==
@@ -53,7 +57,19 @@ RenderPatch ==
   /\ IF PVariant = "patch_renders_all" THEN tree' = cfg /\ summ' = cfg ELSE UNCHANGED <<tree, summ>>
   /\ UNCHANGED cfg
 
+(* Network.export(name, ..., overwrite=ow) of a network with description d: a new directory gets the network file, the configuration
+   (with its summary) and the sources of d; an existing one is left alone unless overwrite is set, and then ALL of them are replaced *)
+Export(d, ow) ==
+  /\ d \in ExportDescs
+  /\ IF cfg = 0 \/ ow
+       THEN IF PVariant = "export_keeps_config" /\ cfg # 0
+              THEN tree' = d /\ UNCHANGED <<cfg, summ>>
+              ELSE cfg' = d /\ tree' = d /\ summ' = d
+       ELSE UNCHANGED <<cfg, tree, summ>>
+  /\ UNCHANGED patch
+
 PNext == (\E d \in Descs : InitCmd(d) \/ Edit(d)) \/ (\E f \in BOOLEAN : Render(f)) \/ RenderPatch
+           \/ (\E d \in ExportDescs, ow \in BOOLEAN : Export(d, ow))
 PSpec == PInit /\ [][PNext]_pvars
 
 -----------------------------------------------------------------------------
@@ -63,9 +79,9 @@ SummaryDescribesSources == summ = tree
 (* nothing is rendered from a description that was never configured, and a project is never un-configured *)
 ConfiguredOnce == [][cfg # 0 => cfg' # 0]_pvars
 (* sources only ever change to the description that is configured at that moment *)
-RenderedFromCurrentConfig == [][tree' # tree => tree' = cfg]_pvars
-(* a second init never silently replaces a configuration *)
-InitNeverOverwrites == [][(cfg # 0 /\ cfg' # cfg) => UNCHANGED <<tree, summ, patch>>]_pvars
+RenderedFromCurrentConfig == [][tree' # tree => tree' = cfg']_pvars
+(* a configuration is replaced either with nothing else (a hand edit) or together with sources and summary (an overwriting export) *)
+InitNeverOverwrites == [][(cfg # 0 /\ cfg' # cfg) => (UNCHANGED <<tree, summ, patch>> \/ (tree' = cfg' /\ summ' = cfg'))]_pvars
 (* the patch command leaves the sources alone: only stated as a step property of the action itself *)
 PatchLeavesSources == [][(patch' # patch) => UNCHANGED <<tree, summ>>]_pvars
 =============================================================================
